@@ -85,6 +85,13 @@ func VerifE01Check() {
 	u := vtsem.NewUniverse(m, vt.ParamInt("nobj", 2), vt.ParamInt("invalid", 1) == 1)
 	u.Restrict(vt.ParamInt("maxcands", 12), vt.ParamInt("seed", 0))
 	st := vtsem.NewSymbolicStore(u)
+	if vt.ParamInt("noerr", 0) == 1 {
+		// every condition can be evaluated (met or not met): keeps the recorded finding about unevaluable
+		// conditions from using up the violation budget of a run
+		for _, e := range st.CondErr {
+			vt.Assume(!e)
+		}
+	}
 	reqs := verifRequests(u, vt.Param("subjects", "all"))
 	ri := vt.ParamInt("req", -1)
 	if ri < 0 {
